@@ -553,7 +553,8 @@ func (o *Order) sans(csr *x509.CertificateRequest) ([]x509util.SubjectAlternativ
 		index++
 	}
 
-	return sans, nil
+	// duplicate URIs were removed above: return only the entries filled in
+	return sans[:index], nil
 }
 
 // numberOfIdentifierType returns the number of Identifiers that
